@@ -176,7 +176,7 @@ def find_items(src, header, depth=0, start=0, end=None):
             htxt = src.text[hp:ob]
         h = norm_ws(re.sub(r'^pub(\([^)]*\))?\s+', '', norm_ws(htxt)))
         # compare ignoring generics bounds / where clauses after the header text asked for
-        if h == header or h.startswith(header + ' ') or h.startswith(header + '<') or h.startswith(header + '('):
+        if h == header or h.startswith(header + ' ') or h.startswith(header + '<') or h.startswith(header + '(') or h.startswith(header + ':'):
             if h != header:
                 # allow "struct Foo {", "enum X", "impl<T> ..." must be spelled fully by caller
                 rest = h[len(header):]
